@@ -76,6 +76,7 @@ ASSUMPTIONS = [
     "large_ratio stratum: MemoryError is an accepted decline; a returned result must still be exact",
 ]
 MIN_CASES_PER_WORKER = 20
+WATCHDOG = {"quick": 1800, "thorough": 6 * 3600}
 MANIFEST = {
     "technique": "differential monitor: every CellList query (index/mask/single/batched/per-query radii/cell-based/"
                  "adjacency, open and periodic) vs float64 brute force (125-image minimum image) with a "
